@@ -48,6 +48,11 @@ def run(tier):
         c.sc, c.profile, c.mode, c.seed = gen.gen_oneshot_sub_replaced(seed * 1000 + k), "oneshot_sub_replaced", ("loop" if k % 2 else "dispatch"), seed * 1000 + k
         cases.append(c)
 
+    for k in range(16 if tier == "quick" else 400):
+        c = cc.Case()
+        c.sc, c.profile, c.mode, c.seed = gen.gen_resub_dup(seed * 1000 + k), "resub_dup", ("loop" if k % 2 else "dispatch"), seed * 1000 + k
+        cases.append(c)
+
     def oracle(case):
         return model_registry.check_c09(case, stats)
 
